@@ -28,6 +28,9 @@ type compiler struct {
 
 	// typedefs whose type is being compiled right now: reaching one of them again is a cycle
 	typedefsInProgress map[*Typedef]bool
+
+	// identities whose bases are being compiled right now, likewise
+	identitiesInProgress map[*Identity]bool
 }
 
 func (c *compiler) module(y *Module) error {
@@ -223,10 +226,20 @@ func (c *compiler) extension(e *Extension) error {
 }
 
 func (c *compiler) identity(y *Identity) error {
+	if c.identitiesInProgress[y] {
+		// RFC7950 Sec 7.18.2: an identity must not reference itself, neither directly nor
+		// through a chain of other identities (a search of the derived identities would not end)
+		return fmt.Errorf("%s - identity %s is derived from itself", SchemaPath(y), y.ident)
+	}
 	if y.base != nil {
 		// already done
 		return nil
 	}
+	if c.identitiesInProgress == nil {
+		c.identitiesInProgress = make(map[*Identity]bool)
+	}
+	c.identitiesInProgress[y] = true
+	defer delete(c.identitiesInProgress, y)
 	y.base = make([]*Identity, 0, len(y.baseIds))
 
 	// find all the derived identities
